@@ -198,18 +198,30 @@ ResolverFieldItems(S, cfg, env, A, sc, o, f, t) ==
           \cup Compare(PosCands(A, f.type), LAMBDA v : Member(v, R, env, sc, 12), LAMBDA v : InRefPos(S, cfg, "ResolverOutput", f.type, v), "resolver-result", ctx)
           \cup (IF Dangling(t, env, sc) = {} THEN {} ELSE {Item("dangling-reference", "a reference inside the resolver type does not resolve", [ctx |-> ctx, paths |-> Dangling(t, env, sc)])})
 
-(* the local alias of an object type: the ResolverOutput declaration minus __typename *)
+(* the model plugin (`nitrogql:model-plugin`): an object with @model(type: "T") is represented by the TypeScript type T and needs every *)
+(* resolver; otherwise the parent object handed to resolvers carries exactly the fields marked @model, and those need no resolver   *)
+HasDir(dirs, n) == \E i \in DOMAIN dirs : dirs[i].name = n
+DirArg(dirs, n, a) == LET d == dirs[CHOOSE i \in DOMAIN dirs : dirs[i].name = n] IN d.args[CHOOSE j \in DOMAIN d.args : d.args[j].name = a].v
+ModelObject(cfg, d) == cfg.modelPlugin /\ HasDir(d.dirs, "model")
+ModelFields(cfg, d) == IF cfg.modelPlugin /\ ~HasDir(d.dirs, "model") THEN {d.fields[i].name : i \in {j \in DOMAIN d.fields : HasDir(d.fields[j].dirs, "model")}} ELSE {}
+ExcludedResolvers(S, cfg) == UNION {{<<n, f>> : f \in ModelFields(cfg, TypeDef(S, n))} : n \in {m \in UserTypeNames(S) : KindOf(S, m) = "object"}}
+
+(* the local alias of an object type: the ResolverOutput declaration minus __typename (no plugin); see above with the model plugin *)
 LocalObjectAliasItems(S, cfg, env, A, o) ==
   LET e == ExportedMember(env.local, "local", "", o)
       d == TypeDef(S, o)
       ctx == <<"resolvers-local-alias", o>>
-      keys == {d.fields[i].name : i \in DOMAIN d.fields}
+      keys == IF cfg.modelPlugin THEN ModelFields(cfg, d) ELSE {d.fields[i].name : i \in DOMAIN d.fields}
       tyOf(key) == FieldDef(S, o, key).type
       okAll == \A key \in keys : HasCanon(PosCands(A, tyOf(key)), LAMBDA x : InRefPos(S, cfg, "ResolverOutput", tyOf(key), x))
       canonOf(key) == Canon(PosCands(A, tyOf(key)), LAMBDA x : InRefPos(S, cfg, "ResolverOutput", tyOf(key), x))
       candsOf(key) == PosCands(A, tyOf(key))
       InRef(v) == v.k = "rec" /\ \A key \in keys : InRefPos(S, cfg, "ResolverOutput", tyOf(key), Read(v, key))
   IN IF e.k # "decl" THEN {Item("missing-alias", "the resolvers file has no local alias for an object type", [ctx |-> ctx])}
+     ELSE IF ModelObject(cfg, d)
+          THEN (* the configured TypeScript text, verbatim: every identifier in it is a global, exactly as in cfg.modelTypes *)
+               Compare(A \cup {VGlob(g) : g \in GlobalsIn(cfg.modelTypes[o])} \cup {VRaw(r) : r \in RawsIn(cfg.modelTypes[o])},
+                       LAMBDA v : Member(v, e.stmt.t, env, ScopeOfDecl(e), 12), LAMBDA v : Member(v, cfg.modelTypes[o], GlobalEnv, GlobalScope, 6), "model-alias", ctx)
      ELSE IF ~okAll THEN {}
      ELSE Compare(RecCands({VNull, VUndef}, keys, candsOf, canonOf), LAMBDA v : Member(v, e.stmt.t, env, ScopeOfDecl(e), 12), InRef, "alias", ctx)
 
@@ -221,7 +233,9 @@ ResolversItems(S, cfg, env, excluded) ==
               sc == ScopeOfDecl(e)
               objs == {n \in UserTypeNames(S) : KindOf(S, n) = "object"}
               abstracts == {n \in UserTypeNames(S) : KindOf(S, n) \in {"interface", "union"}}
-          IN UNION {IF ~HasObjField(body, o) \/ ObjField(body, o).opt \/ ObjField(body, o).t.k # "obj"
+          IN UNION {IF \A i \in DOMAIN TypeDef(S, o).fields : <<o, TypeDef(S, o).fields[i].name>> \in excluded
+                    THEN LocalObjectAliasItems(S, cfg, env, A, o)          \* every field is plugin-excluded: no entry is required
+                    ELSE IF ~HasObjField(body, o) \/ ObjField(body, o).opt \/ ObjField(body, o).t.k # "obj"
                     THEN {Item("resolver-missing", "Resolvers does not require an entry for an object type", [ctx |-> <<"Resolvers", o>>])}
                     ELSE LET ot == ObjField(body, o).t d == TypeDef(S, o) IN
                          UNION {LET f == d.fields[i] IN
